@@ -656,7 +656,8 @@ def run(chk, replay=None):
         # ---- (b) option sets
         chosen = [OPTS[0], dict(OPTS[0], causal=True)] + rng.sample(OPTS, n_opts)
         if option_sets is not None:
-            chosen = [dict(OPTS[0], **o) for o in option_sets]
+            # ({} = the plain partial-fraction route: damped_sin off unless the set asks for it)
+            chosen = [dict(dict(OPTS[0], damped_sin=False), **o) for o in option_sets]
         if forced_opts is not None:
             chosen = [dict(OPTS[0], **forced_opts)] + chosen[:2]
         first = None
